@@ -5,6 +5,7 @@ import (
 	"encoding/binary"
 	"encoding/hex"
 	"fmt"
+	"io"
 	"os"
 	"sync/atomic"
 
@@ -242,7 +243,10 @@ func (mdb *MassDBV1) plotWork(cache *MemCache) error {
 		}
 
 		for y := pocutil.PoCValue(0); y < half; y++ {
-			bufRdA.Read(bs)
+			// a single Read returns short when the buffer is refilled in the middle of a pair
+			if _, err := io.ReadFull(bufRdA, bs); err != nil {
+				return err
+			}
 			x, xp := bs[:recordSize], bs[recordSize:]
 			if !bytesEqualZero(x) && !bytesEqualZero(xp) {
 				z := pocutil.FB(x, xp, bl, pkHash)
